@@ -1396,4 +1396,15 @@ def no_memo(repo: Repo) -> RuleRun:
 no_memo.rule_id = "C09.NO-MEMO"
 
 
-RULES = [arc_sense, purity, no_alias_store, affine_balance, unit_normal, direction_parts, transform_equals_methods, transform_routing, linear_parts, deep_copy, mirror_matrix, no_shared_parts, arguments_untouched, super_forwarding, inplace_then_read, invalidate_last, live_lengths, private_coordinates, live_arrays, displacement_copied, average_axis, unit_axis, mirror_sense, geometry_role_free, applied_once, shear_unit_direction, length_direction, remembered_points_current, shear_sign, angle_axis_exact, no_memo]
+
+def direction_length(repo: Repo) -> RuleRun:
+    """'linked vertices keep their ... mirror relation to their leader' / 'mirroring any entity ...': a mirror plane is given by a direction - its normal at any length. Shared rule (affine.direction_length_rule)."""
+    from ..affine import direction_length_rule
+
+    return direction_length_rule(repo, PROP, "C09.DIRECTION-LENGTH")
+
+
+direction_length.rule_id = "C09.DIRECTION-LENGTH"
+
+
+RULES = [arc_sense, purity, no_alias_store, affine_balance, unit_normal, direction_parts, transform_equals_methods, transform_routing, linear_parts, deep_copy, mirror_matrix, no_shared_parts, arguments_untouched, super_forwarding, inplace_then_read, invalidate_last, live_lengths, private_coordinates, live_arrays, displacement_copied, average_axis, unit_axis, mirror_sense, geometry_role_free, applied_once, shear_unit_direction, length_direction, remembered_points_current, shear_sign, angle_axis_exact, no_memo, direction_length]
